@@ -84,34 +84,38 @@ Definition month_table_sound_b : bool :=
   forallb (fun kv => match two_digit_val (snd kv) with
                      | Some n => oZ_eqb (month_of_name (fst kv)) (Some n)
                      | None => false end) month_table.
-(* every reference spelling (lower/Title/UPPER x abbr / abbr. / full) has an arm *)
-(* known finding F12 (month_may_with_dot): "may." / "May." / "MAY." are captured by CGP_MONTHb
-   ( (...|may|May|MAY|...)[\.]? ) but month_bB_to_month_m_bytes has no arm for them: panic!() *)
-Definition may_dot (sp : bytes) : bool := beqb (lower_bytes sp) [109; 97; 121; 46].
+(* every reference spelling (lower/Title/UPPER x abbr / abbr. / full) has an arm — all of them, "may."
+   included since the fix of F12 (commit 653ab12e) *)
 Definition month_table_complete_b : bool :=
-  forallb (fun sv => may_dot (fst sv) ||
-                     match assoc (fst sv) month_table with
+  forallb (fun sv => match assoc (fst sv) month_table with
                      | Some v => oZ_eqb (two_digit_val v) (Some (snd sv))
                      | None => false end) ref_month_spellings.
 Lemma month_table_sound_ok : month_table_sound_b = true. Proof. vm_compute. reflexivity. Qed.
 Lemma month_table_complete_ok : month_table_complete_b = true. Proof. vm_compute. reflexivity. Qed.
 
-Lemma month_table_complete_all : forall sp n, In (sp, n) ref_month_spellings -> may_dot sp = false ->
+Lemma month_table_complete_all : forall sp n, In (sp, n) ref_month_spellings ->
   exists v, assoc sp month_table = Some v /\ two_digit_val v = Some n.
 Proof.
-  intros sp n H MD. pose proof month_table_complete_ok as T. unfold month_table_complete_b in T.
-  rewrite forallb_forall in T. specialize (T (sp, n) H). cbn [fst snd] in T. rewrite MD in T. cbn [orb] in T.
+  intros sp n H. pose proof month_table_complete_ok as T. unfold month_table_complete_b in T.
+  rewrite forallb_forall in T. specialize (T (sp, n) H). cbn [fst snd] in T.
   destruct (assoc sp month_table) as [v|]; [|discriminate]. exists v. split; [reflexivity|].
   destruct (two_digit_val v); cbn in T; [|discriminate]. apply Z.eqb_eq in T. subst. reflexivity.
 Qed.
 
-(* the current code on the spelling "May.": no arm, i.e. panic (seg_month = None) *)
-Lemma may_dot_refuted_lemma :
-  exists sp, In (sp, 5%Z) ref_month_spellings /\ assoc sp month_table = None /\
-             forall d c, f_month d = Mo_b -> c_month c = Some sp -> seg_month month_table d c = None.
+(* regression lemma for F12 (fixed): the table WITHOUT the three "may." arms (= the table before the fix)
+   makes captures_to_buffer_bytes panic on "May.", the current table maps it to "05" *)
+Definition may_dot (sp : bytes) : bool := beqb (lower_bytes sp) [109; 97; 121; 46].
+Definition month_table_before_fix : list (bytes * bytes) := filter (fun kv => negb (may_dot (fst kv))) month_table.
+Lemma may_dot_regression_lemma :
+  let sp := [77; 97; 121; 46] in
+  In (sp, 5%Z) ref_month_spellings /\
+  assoc sp month_table_before_fix = None /\
+  (forall d c, f_month d = Mo_b -> c_month c = Some sp -> seg_month month_table_before_fix d c = None) /\
+  (forall d c, f_month d = Mo_b -> c_month c = Some sp -> seg_month month_table d c = Some [48; 53]).
 Proof.
-  exists [77; 97; 121; 46]. split; [vm_compute; tauto|]. split; [vm_compute; reflexivity|].
-  intros d c Hm Hc. unfold seg_month. rewrite Hm, Hc. vm_compute. reflexivity.
+  cbv zeta. split; [vm_compute; tauto|]. split; [vm_compute; reflexivity|]. split.
+  - intros d c Hm Hc. unfold seg_month. rewrite Hm, Hc. vm_compute. reflexivity.
+  - intros d c Hm Hc. unfold seg_month. rewrite Hm, Hc. vm_compute. reflexivity.
 Qed.
 
 (* ---------------------------------------------------------------- pattern table *)
